@@ -46,6 +46,9 @@ class AttrRoles:
         #: attribute -> roles of the parameters / attributes its value is computed from
         self.sources: dict[str, set[str]] = {}
         self._local_conv: set[str] = set()
+        #: locals of the constructor being read that are assigned once, outside conditions and loops: canonical text and expression
+        self._ltext: dict[str, str] = {}
+        self._lvals: dict[str, ast.expr] = {}
         self._nested = 0  # depth of conditions / loops around the statement being read
         if self.init is None:
             return
@@ -56,12 +59,25 @@ class AttrRoles:
     def _walk_init(self, init: FuncInfo, env: dict[str, str], depth: int):
         if depth > 6:
             return
+        saved = (self._ltext, self._lvals, getattr(self, '_once', set()), getattr(self, '_poison', set()))
+        self._ltext, self._lvals = {}, {}
+        stores: dict[str, int] = {}
+        for n in ast.walk(init.node):
+            if isinstance(n, ast.Name) and not isinstance(n.ctx, ast.Load):
+                stores[n.id] = stores.get(n.id, 0) + 1
+        # (a local changed in place - `x.append(..)`, `x.sort()` - does not stand for the expression it was given)
+        mutated = {n.func.value.id for n in ast.walk(init.node) if isinstance(n, ast.Call) and isinstance(n.func, ast.Attribute) and isinstance(n.func.value, ast.Name)
+                   and n.func.attr in ('sort', 'reverse', 'append', 'extend', 'insert', 'remove', 'pop', 'popitem', 'clear', 'update', 'setdefault', 'add', 'discard')}
+        self._once = {k for k, v in stores.items() if v == 1} - set(init.params()) - mutated
+        self._poison = set()
         self._stmts(init.explicit_body, init, dict(env), depth, loopvars={}, loopsrc={})
+        self._ltext, self._lvals, self._once, self._poison = saved
 
     def _canon(self, e: ast.AST, env: dict[str, str], loopvars: dict[str, str]) -> str:
         e2 = _strip_convert(e)
         t = unparse(e2)
-        m = dict(env)
+        m = dict(self._ltext)
+        m.update(env)
         m.update(loopvars)
         t = _subst(t, m)
         amap = {f'self.{a}': next(iter(r)) for a, r in self.roles.items() if len(r) == 1}
@@ -181,8 +197,19 @@ class AttrRoles:
                             if self._is_conv(value):
                                 self._local_conv.add(tt.id)
                             role = self._role_of_value(value, env, loopsrc)
-                            if len(role) == 1 and next(iter(role)).startswith('@'):
+                            single = len(role) == 1 and next(iter(role)).startswith('@')
+                            if not single or (tt.id in env and env[tt.id] != next(iter(role))):
+                                # one of the assignments of the name gives it something else than (the elements of) one parameter: the
+                                # name does not stand for a parameter anywhere (the reading is not path-sensitive)
+                                self._poison.add(tt.id)
+                                if tt.id in env:
+                                    env[tt.id] = tt.id
+                            if single and tt.id not in self._poison:
                                 env[tt.id] = next(iter(role))
+                            elif idx is None and not self._nested and not loopvars and tt.id in self._once and tt.id not in env:
+                                # a local assigned once stands for its expression (`views = self.d.values()` ... `extend(views)`)
+                                self._ltext[tt.id] = self._canon(value, env, loopvars)
+                                self._lvals[tt.id] = value
                             continue
                         if isinstance(tt, ast.Attribute) and isinstance(tt.value, ast.Name) and tt.value.id == 'self':
                             if tt.attr == 'children':
@@ -196,7 +223,11 @@ class AttrRoles:
                                 role = {f'{r}#{idx}' for r in role}
                             self.roles.setdefault(tt.attr, set()).update(role or {f'self.{tt.attr}'})
                             src = set()
-                            for n in ast.walk(value):
+                            vnodes = list(ast.walk(value))
+                            for n in vnodes:  # (the list grows: the expression of a local assigned once is read in its place)
+                                if isinstance(n, ast.Name) and n.id in self._lvals and n.id not in env and len(vnodes) < 2000:
+                                    vnodes += list(ast.walk(self._lvals[n.id]))
+                            for n in vnodes:
                                 if isinstance(n, ast.Name) and n.id in env and env[n.id].startswith('@'):
                                     src.add(env[n.id])
                                 elif isinstance(n, ast.Attribute) and isinstance(n.value, ast.Name) and n.value.id == 'self' and n.attr != tt.attr:
@@ -315,6 +346,20 @@ def _target_names(t: ast.AST) -> list[str]:
     return [n.id for n in ast.walk(t) if isinstance(n, ast.Name)]
 
 
+def _same_elements(e: ast.expr) -> ast.expr:
+    """the collection whose elements `e` yields in the same order: X for X[:], list(X), tuple(X), iter(X), X.copy()"""
+    while True:
+        if isinstance(e, ast.Subscript) and isinstance(e.slice, ast.Slice) and e.slice.lower is None and e.slice.upper is None and e.slice.step is None:
+            e = e.value
+        elif isinstance(e, ast.Call) and isinstance(e.func, ast.Name) and e.func.id in ('list', 'tuple', 'iter') and len(e.args) == 1 and not e.keywords \
+                and not isinstance(e.args[0], (ast.Starred, ast.GeneratorExp, ast.ListComp)):
+            e = e.args[0]
+        elif isinstance(e, ast.Call) and isinstance(e.func, ast.Attribute) and e.func.attr == 'copy' and not e.args and not e.keywords:
+            e = e.func.value
+        else:
+            return e
+
+
 def _strip_convert(e: ast.AST) -> ast.AST:
     """validate_and_convert(x) -> x (the conversion is checked separately)"""
     if isinstance(e, ast.Call) and (dotted(e.func) or '').split('.')[-1] == 'validate_and_convert' and len(e.args) == 1:
@@ -360,21 +405,39 @@ class RecordTemplate:
         self.own_last = False
         self.locals: dict[str, str] = {}
         self.local_ast: dict[str, ast.expr | None] = {}
+        self.local_lv: dict[str, set[str]] = {}  # loop variables in scope where the local is defined
+        self.side: dict[str, list] = {}  # other local lists: what was put in them, in order
+        self.returned: set[str] = set()
+        self._sealed = False
+        self._acc_started = False  # the record was encoded into a side list: text added to it afterwards is not in that record
         self._extract()
 
     # ---- helpers
     def canon(self, e: ast.AST | str, loopvars: dict[str, str]) -> str:
         t = e if isinstance(e, str) else unparse(e)
-        t = _subst(t, self.locals)
         t = t.replace('self.get_children()', CHILDREN).replace('self.children', CHILDREN)
-        t = _subst(t, loopvars)
+        # one pass: a loop variable hides the local of the same name (the texts of the locals are canonical already)
+        m = {k: v for k, v in self.locals.items() if k not in loopvars}
+        m.update(loopvars)
+        t = _subst(t, m)
         t = _subst(t, self.amap)
         # CHILDREN[k] is the k-th child when the first children are added one by one
         return re.sub(r'(?<![\w.])CHILDREN\[(\d+)\]', lambda m: self.children_items[int(m.group(1))] if int(m.group(1)) < len(self.children_items) else m.group(0), t)
 
+    def _local_def(self, name: str, loopvars) -> ast.expr | None:
+        """the expression a local assigned once stands for, when the loop variables it mentions are those of its definition"""
+        la = self.local_ast.get(name)
+        if la is None:
+            return None
+        if {n.id for n in ast.walk(la) if isinstance(n, ast.Name) and n.id in loopvars} - self.local_lv.get(name, set()):
+            return None
+        return la
+
     def field(self, e: ast.expr, loopvars) -> str:
-        if isinstance(e, ast.Name) and e.id not in loopvars and self.local_ast.get(e.id) is not None:
+        if isinstance(e, ast.Name) and e.id not in loopvars and self._local_def(e.id, loopvars) is not None:
             return self.field(self.local_ast[e.id], loopvars)
+        if isinstance(e, ast.JoinedStr):
+            return self.fmt(e, loopvars)  # a text placed in a text is that text
         if isinstance(e, ast.Call) and isinstance(e.func, ast.Attribute) and not e.args:
             if e.func.attr == 'get_class_name' and unparse(e.func.value) == 'self':
                 return '{CLS}'
@@ -417,13 +480,16 @@ class RecordTemplate:
                 and isinstance(v.args[0], (ast.ListComp, ast.GeneratorExp)) and len(v.args[0].generators) == 1 and not v.args[0].generators[0].ifs:
             # ''.join([piece for x in X]): the pieces one after the other, i.e. the loop `for x in X: record += piece`
             g = v.args[0].generators[0]
-            it = self.canon(g.iter, loopvars)
+            it = self.canon(_same_elements(g.iter), loopvars)
             names = [n.id for n in ast.walk(g.target) if isinstance(n, ast.Name)]
             lv = dict(loopvars)
             for i, n in enumerate(names):
                 lv[n] = f'${len(loopvars) + i}'
             return f'⟦for {",".join(lv[n] for n in names)} in {it}: {self.fmt(v.args[0].elt, lv)}⟧'
-        if isinstance(v, ast.Name) and v.id in self.locals:
+        if isinstance(v, ast.Name) and v.id in self.locals and v.id not in loopvars:
+            la = self._local_def(v.id, loopvars)
+            if isinstance(la, (ast.JoinedStr, ast.BinOp)) or (isinstance(la, ast.Constant) and isinstance(la.value, str)):
+                return self.fmt(la, loopvars)  # a local assigned once that holds a piece of text is that piece
             return '{VAL:' + self.canon(v, loopvars) + '}'
         raise AnalysisError(f'{self.func.file}:{v.lineno}: signature fragment not understood: {unparse(v)[:60]}')
 
@@ -460,6 +526,7 @@ class RecordTemplate:
                      for st in body for c in ast.walk(st))
         if self.acc is None and not inline:
             raise AnalysisError(f'{self.func.file}:{self.func.line}: {self.func.qualname}: no record accumulator found')
+        self.returned = {n.value.id for st in body for n in ast.walk(st) if isinstance(n, ast.Return) and isinstance(n.value, ast.Name)}
         self._walk(body, {}, self.items)
         self._normalise(self.items)
 
@@ -505,10 +572,24 @@ class RecordTemplate:
                 st = ast.copy_location(ast.AugAssign(target=ast.Name(id=st.value.func.value.id, ctx=ast.Store()), op=ast.Add(), value=ast.copy_location(ast.List(elts=[st.value.args[0]], ctx=ast.Load()), st)), st)
             if isinstance(st, ast.Assign) and len(st.targets) == 1 and isinstance(st.targets[0], ast.Name):
                 name = st.targets[0].id
+                if isinstance(st.value, ast.BinOp) and isinstance(st.value.op, ast.Add) and isinstance(st.value.left, ast.Name) and st.value.left.id == name \
+                        and name in (self.acc, self.listvar) and not any(isinstance(n, ast.Name) and n.id == name for n in ast.walk(st.value.right)):
+                    # `x = x + more` is `x += more` (texts and lists)
+                    self._walk([ast.copy_location(ast.AugAssign(target=ast.Name(id=name, ctx=ast.Store()), op=ast.Add(), value=st.value.right), st)], loopvars, items)
+                    continue
                 if name == self.acc:
+                    if self._acc_started or loopvars:
+                        # a plain store to the record after it holds text starts it again: what it held is lost
+                        raise AnalysisError(f'{self.func.file}:{st.lineno}: the record {name} is assigned again after it holds text: {unparse(st)[:60]}')
+                    self._acc_started = True
                     items.append(('text', self.fmt(st.value, loopvars)))
                 elif isinstance(st.value, ast.List) and not st.value.elts:
-                    self.listvar = name
+                    if self.listvar is None or self.listvar == name or (name in self.returned and self.listvar not in self.returned):
+                        self.listvar = name
+                    elif loopvars:
+                        raise AnalysisError(f'{self.func.file}:{st.lineno}: list {name} started inside a loop of get_signature')
+                    else:
+                        self.side[name] = []
                 elif isinstance(st.value, ast.ListComp) and len(st.value.generators) == 2 and not any(g.ifs for g in st.value.generators) \
                         and isinstance(st.value.generators[0].target, ast.Name) and isinstance(st.value.generators[1].target, ast.Name) \
                         and isinstance(st.value.elt, ast.Name) and st.value.elt.id == st.value.generators[1].target.id \
@@ -526,13 +607,26 @@ class RecordTemplate:
                 else:
                     # a local that is assigned once stands for its expression: written in a field it has the role of that expression
                     self.local_ast[name] = st.value if name not in self.local_ast and name not in self.locals else None
+                    self.local_lv[name] = set(loopvars)
                     self.locals[name] = self.canon(st.value, loopvars)
                 continue
             if isinstance(st, ast.AugAssign) and isinstance(st.target, ast.Name) and isinstance(st.op, ast.Add):
                 if st.target.id == self.acc:
+                    if self._sealed:
+                        raise AnalysisError(f'{self.func.file}:{st.lineno}: text added to the record after it was encoded: {unparse(st)[:60]}')
                     items.append(('text', self.fmt(st.value, loopvars)))
                     self.own_last = False
                     continue
+                if st.target.id in self.side and not loopvars:
+                    # another local list: what it receives is placed where the list is added to the returned one
+                    who = self._is_sig_call(st.value)
+                    if who is not None:
+                        self.side[st.target.id].append(('sig', self.canon(who, loopvars)))
+                        continue
+                    if self._own(st.value, loopvars, items):
+                        self.side[st.target.id].append(('own',))
+                        self._sealed = True
+                        continue
                 if st.target.id == self.listvar:
                     who = self._is_sig_call(st.value)
                     if who is not None:
@@ -542,6 +636,14 @@ class RecordTemplate:
                         continue
                     if self._own(st.value, loopvars, items):
                         self.own_last = True
+                        continue
+                    if isinstance(st.value, ast.Name) and st.value.id in self.side and not loopvars:
+                        for ev in self.side.pop(st.value.id):  # (a list added twice is not followed: popped)
+                            if ev[0] == 'sig':
+                                self.emitted.append(ev[1])
+                                self.own_last = False
+                            else:
+                                self.own_last = True
                         continue
                 raise AnalysisError(f'{self.func.file}:{st.lineno}: statement of get_signature not understood: {unparse(st)[:70]}')
             if isinstance(st, ast.For) and isinstance(st.iter, (ast.List, ast.Tuple)) and isinstance(st.target, ast.Name) and len(st.body) == 1 \
@@ -557,9 +659,11 @@ class RecordTemplate:
                     else:
                         self.emitted.append(self.canon(e, loopvars))
                 self.own_last = False
+                self.locals.pop(st.target.id, None)
+                self.local_ast[st.target.id] = None
                 continue
             if isinstance(st, ast.For):
-                it = self.canon(st.iter, loopvars)
+                it = self.canon(_same_elements(st.iter), loopvars)
                 names = _target_names(st.target)
                 lv = dict(loopvars)
                 for i, n in enumerate(names):
@@ -567,6 +671,10 @@ class RecordTemplate:
                 sub: list = []
                 n_em = len(self.emitted)
                 self._walk(st.body, lv, sub)
+                for n in names:
+                    # after the loop the name holds the last element (or what it held before, over an empty collection): not a local any more
+                    self.locals.pop(n, None)
+                    self.local_ast[n] = None
                 for k in range(n_em, len(self.emitted)):
                     self.emitted[k] = f'⟦{it}⟧{self.emitted[k]}'
                     if it == CHILDREN:
